@@ -86,6 +86,8 @@ pub enum FpMode {
     Corrupt,
     /// placed before the other attributes but computed as if it were last (wrong for its position)
     Misplaced,
+    /// a FINGERPRINT with a wrong value followed by a second one that is correct for everything before it
+    CorruptThenValid,
 }
 
 #[derive(Clone, Debug, PartialEq, Eq, Hash, Serialize, Deserialize)]
@@ -120,7 +122,8 @@ pub struct Reply {
     pub fp: FpMode,
     pub dup: bool,
     /// duplicates with DIFFERENT values appended after the genuine attributes (the client must use the first):
-    /// bit 0 second REALM, bit 1 second NONCE, bit 2 second ERROR-CODE, bit 3 second PASSWORD-ALGORITHMS
+    /// bit 0 second REALM, bit 1 second NONCE, bit 2 second ERROR-CODE, bit 3 second PASSWORD-ALGORITHMS;
+    /// bit 4: a 438 carries a PASSWORD-ALGORITHMS list that differs from the one of the session
     #[serde(default)]
     pub twist: u8,
 }
@@ -210,6 +213,10 @@ pub fn build_message(
         FpMode::Absent => {}
         FpMode::Valid => attrs.push(RAttr::Fp(FpSpec::Computed(Fault::Correct))),
         FpMode::Corrupt => attrs.push(RAttr::Fp(FpSpec::Computed(Fault::FlipBit(9)))),
+        FpMode::CorruptThenValid => {
+            attrs.push(RAttr::Fp(FpSpec::Computed(Fault::FlipBit(9))));
+            attrs.push(RAttr::Fp(FpSpec::Computed(Fault::Correct)));
+        }
         FpMode::Misplaced => {
             // value computed as if FINGERPRINT were the last attribute, then moved to the front
             let mut tmp = attrs.clone();
